@@ -1809,9 +1809,15 @@ def run_c16(o, tier, rng, prep):
                     used.send(rng.choice(GARBAGE))
                 else:
                     if not t[3]:
-                        reply(used, pos_cmd(t[0], t[1]), rng.choice(["go", "go wtime 130 btime 130 movestogo 1", "go wtime 110 btime 110"]))
+                        reply(used, pos_cmd(t[0], t[1]), rng.choice(["go", "go wtime 130 btime 130 movestogo 1", "go wtime 110 btime 110",
+                                                                     "go wtime 140 btime 140", "go wtime 175 btime 175",
+                                                                     "go wtime 102 btime 102 movestogo 1", "go wtime 103 btime 103 movestogo 1"]))
                     else:
                         used.send(pos_cmd(t[0], t[1]))
+            # a search of a millisecond or two right before the probe: anything it leaves behind (queued sends,
+            # tables) must not reach the next request
+            reply(used, rng.choice(["position startpos", "position startpos moves e2e4", "position fen r3k2r/p1ppqpb1/bn2pnp1/3PN3/1p2P3/2N2Q1p/PPPBBPPP/R3K2R w KQkq - 0 1"]),
+                  rng.choice(["go wtime 140 btime 140", "go wtime 102 btime 102 movestogo 1", "go wtime 103 btime 103 movestogo 1"]))
             used.isready()
             # zero allowance: identical bestmove
             a = reply(fresh, cmd, "go")
